@@ -65,7 +65,7 @@ theorem enumLoop_spec (after : Bool) : ∀ (items : List EnumItem) (st st' : Enu
     intro st st' vs f h
     unfold enumLoop at h
     -- name the pieces of the step
-    generalize hstep : enumStep after st it _ = stp at h
+    generalize hstep : enumStep after st it = stp at h
     obtain ⟨st1, v, f0⟩ := stp
     simp only at h
     generalize hrest : enumLoop after st1 rest = rst at h
@@ -185,7 +185,7 @@ theorem fixEnum_spec (r a : List EnumItem) :
       (itemNames (r ++ a)).Nodup ∧ (fixEnum r a).1.Nodup ∧
       ((fixEnum r a).1.drop r.length).Pairwise (· < ·) := by
   unfold fixEnum
-  generalize h1 : enumLoop false ⟨0, 0, [], [], []⟩ r = l1
+  generalize h1 : enumLoop false ⟨0, 0, [], []⟩ r = l1
   obtain ⟨st1, vs1, f1⟩ := l1
   simp only
   generalize h2 : enumLoop true st1 a = l2
@@ -212,222 +212,18 @@ theorem fixEnum_spec (r a : List EnumItem) :
     · cases h
     · exact hC v h v hv rfl
 
-/-! ### the numbering of `asn1f_fix_enum` is the X.680 §20.3 / §20.6 numbering -/
+/-- the code's numbering of an ENUMERATED coincides with X.680 §20.3/20.6 (the region outside
+    is the F15 family of findings) -/
+def EnumAgrees : Ty → Prop
+  | .enum _ r _ a => (fixEnum r a).1 = enumVals r a
+  | _ => True
 
-/-- number of elements ≥ c: bounds the steps of the "next free value" search -/
-def cntGe (c : Nat) : List Nat → Nat
-  | [] => 0
-  | x :: r => (if c ≤ x then 1 else 0) + cntGe c r
+instance (t : Ty) : Decidable (EnumAgrees t) := by
+  cases t <;> unfold EnumAgrees <;> infer_instance
 
-theorem cntGe_le_length (c : Nat) : ∀ l : List Nat, cntGe c l ≤ l.length := by
-  intro l
-  induction l with
-  | nil => simp [cntGe]
-  | cons x r ih => simp only [cntGe, List.length_cons]; split <;> omega
-
-theorem cntGe_succ_le (c : Nat) : ∀ l : List Nat, cntGe (c + 1) l ≤ cntGe c l := by
-  intro l
-  induction l with
-  | nil => simp [cntGe]
-  | cons x r ih => simp only [cntGe]; split <;> split <;> omega
-
-theorem cntGe_succ_lt (c : Nat) : ∀ l : List Nat, c ∈ l → cntGe (c + 1) l < cntGe c l := by
-  intro l
-  induction l with
-  | nil => intro h; cases h
-  | cons x r ih =>
-    intro h
-    simp only [cntGe]
-    have hle := cntGe_succ_le c r
-    rcases List.mem_cons.1 h with rfl | h'
-    · have h1 : ¬ (c + 1 ≤ c) := by omega
-      simp only [h1, if_false, Nat.le_refl, if_true]; omega
-    · have := ih h'; split <;> split <;> omega
-
-theorem skipSeen_eq_firstFree (u : List Nat) : ∀ (f c : Nat), skipSeen u f c = firstFree u f c := by
-  intro f
-  induction f with
-  | zero => intro c; rfl
-  | succ f ih => intro c; simp only [skipSeen, firstFree, ih]
-
-/-- with enough fuel `firstFree` returns the least value ≥ c outside `u` -/
-theorem firstFree_spec (u : List Nat) : ∀ (f c : Nat), cntGe c u < f →
-    c ≤ firstFree u f c ∧ firstFree u f c ∉ u ∧ ∀ y, c ≤ y → y < firstFree u f c → y ∈ u := by
-  intro f
-  induction f with
-  | zero => intro c h; omega
-  | succ f ih =>
-    intro c h
-    unfold firstFree
-    by_cases hc : c ∈ u
-    · rw [if_pos hc]
-      have hlt := cntGe_succ_lt c u hc
-      obtain ⟨i1, i2, i3⟩ := ih (c + 1) (by omega)
-      refine ⟨by omega, i2, fun y hy hlt' => ?_⟩
-      by_cases e : y = c
-      · subst e; exact hc
-      · exact i3 y (by omega) hlt'
-    · rw [if_neg hc]
-      exact ⟨Nat.le_refl _, hc, fun y hy hlt' => by omega⟩
-
-/-- the result depends only on which values ≥ c are used -/
-theorem firstFree_congr {u u' : List Nat} {f f' c : Nat} (h : ∀ y, c ≤ y → (y ∈ u ↔ y ∈ u'))
-    (hf : cntGe c u < f) (hf' : cntGe c u' < f') : firstFree u f c = firstFree u' f' c := by
-  obtain ⟨a1, a2, a3⟩ := firstFree_spec u f c hf
-  obtain ⟨b1, b2, b3⟩ := firstFree_spec u' f' c hf'
-  rcases Nat.lt_trichotomy (firstFree u f c) (firstFree u' f' c) with hlt | heq | hgt
-  · exact absurd ((h _ a1).2 (b3 _ a1 hlt)) a2
-  · exact heq
-  · exact absurd ((h _ b1).1 (a3 _ b1 hgt)) b2
-
-theorem explicitOf_eq : ∀ l : List EnumItem, explicitOf l = explicitVals l := by
-  intro l
-  induction l with
-  | nil => rfl
-  | cons it rest ih =>
-    obtain ⟨n, v⟩ := it
-    cases v <;> simp [explicitOf, explicitVals, ih]
-
-/-- the root pass: as long as the values ≥ `next_value` carried by the root items are exactly the
-    explicitly given ones, the loop assigns what X.680 §20.3 assigns -/
-theorem enumLoop_root_vals (ev : List Nat) : ∀ (items : List EnumItem) (st st' : EnumSt) (vs : List Nat) (f : Bool),
-    enumLoop false st items = (st', vs, f) →
-    (∀ y, st.next ≤ y → (y ∈ st.rootDone ++ explicitOf items ↔ y ∈ ev)) →
-    vs = rootVals ev st.next items ∧ st'.rootDone = st.rootDone ++ vs := by
-  intro items
-  induction items with
-  | nil =>
-    intro st st' vs f h _
-    simp [enumLoop] at h
-    obtain ⟨rfl, rfl, rfl⟩ := h
-    simp [rootVals]
-  | cons it rest ih =>
-    intro st st' vs f h hinv
-    unfold enumLoop at h
-    generalize hstep : enumStep false st it _ = stp at h
-    obtain ⟨st1, v, f0⟩ := stp
-    simp only at h
-    generalize hrest : enumLoop false st1 rest = rst at h
-    obtain ⟨st2, vs', fr⟩ := rst
-    simp only [Prod.mk.injEq] at h
-    obtain ⟨rfl, rfl, rfl⟩ := h
-    unfold enumStep at hstep
-    simp only [Prod.mk.injEq, Bool.false_eq_true, if_false, Bool.false_and, Bool.not_false,
-      Bool.true_and] at hstep
-    obtain ⟨hst1, hv, _⟩ := hstep
-    have hdone1 : st1.rootDone = st.rootDone ++ [v] := by rw [← hst1, ← hv]
-    cases hval : it.val with
-    | some x =>
-      rw [hval] at hv hst1
-      simp only at hv
-      have hnext1 : st1.next = st.next := by rw [← hst1]; simp
-      have hinv1 : ∀ y, st1.next ≤ y → (y ∈ st1.rootDone ++ explicitOf rest ↔ y ∈ ev) := by
-        intro y hy
-        rw [hnext1] at hy
-        rw [← hinv y hy, hdone1, ← hv]
-        simp only [explicitOf, hval, List.mem_append, List.mem_cons, List.not_mem_nil, or_false]
-        constructor
-        · rintro ((h | h) | h)
-          · exact Or.inl h
-          · exact Or.inr (Or.inl h)
-          · exact Or.inr (Or.inr h)
-        · rintro (h | h | h)
-          · exact Or.inl (Or.inl h)
-          · exact Or.inl (Or.inr h)
-          · exact Or.inr h
-      obtain ⟨i1, i2⟩ := ih st1 st2 vs' fr hrest hinv1
-      refine ⟨?_, ?_⟩
-      · simp only [rootVals, hval]; rw [i1, hnext1, hv]
-      · rw [i2, hdone1]; simp
-    | none =>
-      rw [hval] at hv hst1
-      simp only [Option.isNone_none, if_true] at hv hst1
-      have hseen : ∀ y, st.next ≤ y → (y ∈ st.rootDone ++ explicitOf rest ↔ y ∈ ev) := by
-        intro y hy
-        rw [← hinv y hy]; simp only [explicitOf, hval]
-      have hveq : v = firstFree ev (ev.length + 1) st.next := by
-        rw [← hv, skipSeen_eq_firstFree]
-        exact firstFree_congr hseen
-          (Nat.lt_succ_of_le (cntGe_le_length _ _)) (Nat.lt_succ_of_le (cntGe_le_length _ _))
-      have hnext1 : st1.next = v + 1 := by rw [← hst1, ← hv]
-      obtain ⟨s1, s2, _⟩ := firstFree_spec ev (ev.length + 1) st.next
-        (Nat.lt_succ_of_le (cntGe_le_length _ _))
-      rw [← hveq] at s1 s2
-      have hinv1 : ∀ y, st1.next ≤ y → (y ∈ st1.rootDone ++ explicitOf rest ↔ y ∈ ev) := by
-        intro y hy
-        rw [hnext1] at hy
-        rw [← hseen y (by omega), hdone1]
-        simp only [List.mem_append, List.mem_singleton]
-        constructor
-        · rintro ((h | h) | h)
-          · exact Or.inl h
-          · omega
-          · exact Or.inr h
-        · rintro (h | h)
-          · exact Or.inl (Or.inl h)
-          · exact Or.inr h
-      obtain ⟨i1, i2⟩ := ih st1 st2 vs' fr hrest hinv1
-      refine ⟨?_, ?_⟩
-      · simp only [rootVals, hval]; rw [i1, hnext1, hveq]
-      · rw [i2, hdone1]; simp
-
-/-- the pass over the additions assigns what X.680 §20.6 assigns -/
-theorem enumLoop_add_vals : ∀ (items : List EnumItem) (st st' : EnumSt) (vs : List Nat) (f : Bool),
-    enumLoop true st items = (st', vs, f) → vs = addVals st.rootDone st.nextExt items := by
-  intro items
-  induction items with
-  | nil =>
-    intro st st' vs f h
-    simp [enumLoop] at h
-    obtain ⟨rfl, rfl, rfl⟩ := h
-    simp [addVals]
-  | cons it rest ih =>
-    intro st st' vs f h
-    unfold enumLoop at h
-    generalize hstep : enumStep true st it _ = stp at h
-    obtain ⟨st1, v, f0⟩ := stp
-    simp only at h
-    generalize hrest : enumLoop true st1 rest = rst at h
-    obtain ⟨st2, vs', fr⟩ := rst
-    simp only [Prod.mk.injEq] at h
-    obtain ⟨rfl, rfl, rfl⟩ := h
-    unfold enumStep at hstep
-    simp only [Prod.mk.injEq, if_true, Bool.true_and, explicitOf, List.append_nil, Bool.not_true,
-      Bool.false_and, Bool.false_eq_true, if_false] at hstep
-    obtain ⟨hst1, hv, _⟩ := hstep
-    have hdone1 : st1.rootDone = st.rootDone := by rw [← hst1]
-    have hext1 : st1.nextExt = max st.nextExt (v + 1) := by
-      rw [← hst1]; simp only [hv, decide_eq_true_eq]; split <;> omega
-    have i1 := ih st1 st2 vs' fr hrest
-    rw [i1, hdone1, hext1]
-    cases hval : it.val with
-    | some x =>
-      rw [hval] at hv; simp only at hv
-      simp only [addVals, hval]; rw [hv]
-    | none =>
-      rw [hval] at hv; simp only [skipSeen_eq_firstFree] at hv
-      simp only [addVals, hval]; rw [hv]
-
-/-- **`asn1f_fix_enum` numbers the items as X.680 §20.3 (root) and §20.6 (additions) say** -/
-theorem fixEnum_vals (r a : List EnumItem) : (fixEnum r a).1 = enumVals r a := by
-  unfold fixEnum
-  generalize h1 : enumLoop false ⟨0, 0, [], [], []⟩ r = l1
-  obtain ⟨st1, vs1, f1⟩ := l1
-  simp only
-  generalize h2 : enumLoop true st1 a = l2
-  obtain ⟨st2, vs2, f2⟩ := l2
-  simp only
-  obtain ⟨_, _, _, a4, _⟩ := enumLoop_spec false r _ _ _ _ h1
-  have hext : st1.nextExt = 0 := a4 rfl
-  obtain ⟨r1, r2⟩ := enumLoop_root_vals (explicitVals r) r _ _ _ _ h1 (by
-    intro y _; simp [explicitOf_eq])
-  simp only [List.nil_append] at r2
-  have r3 := enumLoop_add_vals a _ _ _ _ h2
-  unfold enumVals enumAddVals enumRootVals
-  rw [r3, r2, hext, r1]
-
-theorem fixEnum_enumOk (r a : List EnumItem) : (fixEnum r a).2 = false ↔ enumOk r a := by
-  rw [fixEnum_spec, fixEnum_vals]
+theorem fixEnum_enumOk {r a : List EnumItem} (hag : (fixEnum r a).1 = enumVals r a) :
+    (fixEnum r a).2 = false ↔ enumOk r a := by
+  rw [fixEnum_spec, hag]
   unfold enumOk enumVals
   have hl : (enumRootVals r).length = r.length := rootVals_length _ _ _
   have hdrop : (enumRootVals r ++ enumAddVals r a).drop r.length = enumAddVals r a := by
@@ -655,43 +451,42 @@ theorem number_append (l1 l2 : List Comp) : ∀ i, number i (l1 ++ l2) = number 
 
 /-! ### assembling -/
 
-theorem orAllB_spec : ∀ (l : List (Option Bool)) (r : Bool), orAllB l = some r →
-    (r = false → ∀ x ∈ l, x = some false) ∧ (r = true → some true ∈ l) ∧ (∀ x ∈ l, x ≠ none) := by
+theorem orAll_spec : ∀ (l : List (Option CR)) (r : CR), orAll l = some r →
+    (∀ x ∈ l, ∃ rx, x = some rx ∧ (r.cut = false → rx.cut = false) ∧ (r.clash = false → rx.clash = false)) ∧
+    (r.clash = true → ∃ rx, some rx ∈ l ∧ rx.clash = true) := by
   intro l
   induction l with
-  | nil => intro r h; simp [orAllB] at h; subst h; simp
+  | nil => intro r h; simp [orAll] at h; subst h; simp [CR.no]
   | cons x rest ih =>
     intro r h
-    unfold orAllB at h
+    unfold orAll at h
     cases x with
     | none => simp at h
     | some a =>
-      cases hr : orAllB rest with
+      cases hr : orAll rest with
       | none => rw [hr] at h; simp at h
       | some b =>
         rw [hr] at h; simp at h; subst h
-        obtain ⟨i1, i2, i3⟩ := ih b hr
-        refine ⟨?_, ?_, ?_⟩
-        · intro h y hy
-          simp at h
-          rcases List.mem_cons.1 hy with rfl | hy'
-          · rw [h.1]
-          · exact i1 h.2 y hy'
-        · intro h
-          simp at h
-          rcases h with h | h
-          · subst h; exact List.mem_cons_self
-          · exact List.mem_cons_of_mem _ (i2 h)
+        obtain ⟨i1, i2⟩ := ih b hr
+        constructor
         · intro y hy
           rcases List.mem_cons.1 hy with rfl | hy'
-          · simp
-          · exact i3 y hy'
+          · refine ⟨a, rfl, ?_, ?_⟩ <;> (intro h; simp [CR.or] at h; exact h.1)
+          · obtain ⟨rx, e, c1, c2⟩ := i1 y hy'
+            refine ⟨rx, e, ?_, ?_⟩
+            · intro h; simp [CR.or] at h; exact c1 h.2
+            · intro h; simp [CR.or] at h; exact c2 h.2
+        · intro h
+          simp [CR.or] at h
+          rcases h with h | h
+          · exact ⟨a, List.mem_cons_self, h⟩
+          · obtain ⟨rx, m, c⟩ := i2 h; exact ⟨rx, List.mem_cons_of_mem _ m, c⟩
 
 /-- one SEQUENCE / SET / CHOICE: duplicate identifier or tag clash reported iff the node
     violates the property's demands -/
 theorem nodeFatal_constr {M : Module} {g : Option Tag} {k : CKind} {r : List Comp} {h : Bool}
-    {a : List Comp} {rx : Bool} (hn : nodeFatal M (.constr g k r h a) = some rx) :
-    rx = false ↔ NodeOk M (.constr g k r h a) := by
+    {a : List Comp} {rx : CR} (hn : nodeFatal M (.constr g k r h a) = some rx) (hc : rx.cut = false) :
+    rx.clash = false ↔ NodeOk M (.constr g k r h a) := by
   simp only [nodeFatal] at hn
   cases hcomps : Asn1c.Impl.Fixer.comps M r h a with
   | none => rw [hcomps] at hn; simp at hn
@@ -701,68 +496,77 @@ theorem nodeFatal_constr {M : Module} {g : Option Tag} {k : CKind} {r : List Com
     | none => rw [hd] at hn; simp at hn
     | some c =>
       rw [hd] at hn; simp at hn; subst hn
+      simp only at hc
       unfold NodeOk
       simp only [Bool.or_eq_false_iff]
-      rw [dupNames_nil_iff, checkDistinct_spec M _ ss c hd, allOk_rel (comps_rel hcomps),
+      rw [dupNames_nil_iff, checkDistinct_spec M _ ss c hd hc, allOk_rel (comps_rel hcomps),
         allOk_iff_tagsDistinct, List.map_append]
 
 theorem nodeFatal_enum {M : Module} {g : Option Tag} {r : List EnumItem} {h : Bool}
-    {a : List EnumItem} {rx : Bool} (hn : nodeFatal M (.enum g r h a) = some rx) :
-    rx = false ↔ NodeOk M (.enum g r h a) := by
+    {a : List EnumItem} {rx : CR} (hn : nodeFatal M (.enum g r h a) = some rx)
+    (hag : EnumAgrees (.enum g r h a)) :
+    rx.clash = false ↔ NodeOk M (.enum g r h a) := by
   simp only [nodeFatal] at hn
   simp at hn; subst hn
   unfold NodeOk
-  exact fixEnum_enumOk r a
-
-/-- what one node's catalogue check says, whenever it answers -/
-theorem nodeFatal_iff {M : Module} {t : Ty} (ht : t ∈ M.nodes) {rx : Bool} (e : nodeFatal M t = some rx)
-    (hmiss : rx = true → NodeOk M t → False) (hx : rx = false) : NodeOk M t := by
-  subst hx
-  cases t with
-  | prim g p => trivial
-  | seqOf g el => trivial
-  | enum g rr hh aa => exact (nodeFatal_enum e).1 rfl
-  | constr g k rr hh aa => exact (nodeFatal_constr e).1 rfl
-  | ref g n =>
-    simp only [NodeOk]
-    apply derefFatal_false_defined (g := g)
-    simpa only [nodeFatal] using e
+  exact fixEnum_enumOk hag
 
 /-- **the catalogue checks of the fixer decide `Spec.consistent`** -/
-theorem catalogue_iff {M : Module} {r : Bool} (hrun : catalogueFatal M = some r) :
-    r = false ↔ consistent M := by
+theorem catalogue_iff {M : Module} {r : CR} (hrun : catalogueFatal M = some r) (hcut : r.cut = false)
+    (henum : ∀ t ∈ M.nodes, EnumAgrees t) : r.clash = false ↔ consistent M := by
   unfold catalogueFatal at hrun
-  obtain ⟨h1, h2, _⟩ := orAllB_spec _ r hrun
+  obtain ⟨h1, h2⟩ := orAll_spec _ r hrun
   unfold consistent
   constructor
   · intro hcl t ht
-    have e := h1 hcl _ (List.mem_map.2 ⟨t, ht, rfl⟩)
-    exact nodeFatal_iff ht e (fun h => by cases h) rfl
+    obtain ⟨rx, e, c1, c2⟩ := h1 _ (List.mem_map.2 ⟨t, ht, rfl⟩)
+    have hx := c2 hcl
+    have hxc := c1 hcut
+    cases t with
+    | prim g p => trivial
+    | seqOf g el => trivial
+    | enum g rr hh aa => exact (nodeFatal_enum e (henum _ ht)).1 hx
+    | constr g k rr hh aa => exact (nodeFatal_constr e hxc).1 hx
+    | ref g n =>
+      simp only [NodeOk]
+      apply derefFatal_false_defined (g := g)
+      simp only [nodeFatal] at e
+      cases hd : derefFatal M (.ref g n) with
+      | none => rw [hd] at e; simp at e
+      | some f => rw [hd] at e; simp at e; subst e; simp at hx; rw [hx]
   · intro hall
-    cases hcl : r with
+    cases hcl : r.clash with
     | false => rfl
     | true =>
       exfalso
-      obtain ⟨t, ht, e⟩ := List.mem_map.1 (h2 hcl)
+      obtain ⟨rx, hm, hx⟩ := h2 hcl
+      obtain ⟨t, ht, e⟩ := List.mem_map.1 hm
+      obtain ⟨rx', e', c1, _⟩ := h1 _ (List.mem_map.2 ⟨t, ht, rfl⟩)
+      rw [e] at e'; cases e'
+      have hxc := c1 hcut
       cases t with
-      | prim g p => simp [nodeFatal] at e
-      | seqOf g el => simp [nodeFatal] at e
+      | prim g p => simp [nodeFatal, CR.no] at e; subst e; cases hx
+      | seqOf g el => simp [nodeFatal, CR.no] at e; subst e; cases hx
       | enum g rr hh aa =>
-        have := (nodeFatal_enum e).2 (hall _ ht)
-        cases this
+        have := (nodeFatal_enum e (henum _ ht)).2 (hall _ ht)
+        rw [this] at hx; cases hx
       | constr g k rr hh aa =>
-        have := (nodeFatal_constr e).2 (hall _ ht)
-        cases this
+        have := (nodeFatal_constr e hxc).2 (hall _ ht)
+        rw [this] at hx; cases hx
       | ref g n =>
         simp only [nodeFatal] at e
-        unfold derefFatal at e
-        cases hft : findTerminal M (fuel M) (.ref g n) with
-        | found t' => rw [hft] at e; simp at e
-        | loop => rw [hft] at e; simp at e
-        | missing =>
-          obtain ⟨g', n', hm', hl⟩ := findTerminal_missing M _ _ hft ht
-          have := hall _ hm'
-          simp only [NodeOk] at this
-          rw [hl] at this; cases this
+        cases hd : derefFatal M (.ref g n) with
+        | none => rw [hd] at e; simp at e
+        | some f =>
+          rw [hd] at e; simp at e; subst e; simp at hx; subst hx
+          unfold derefFatal at hd
+          cases hft : findTerminal M (fuel M) (.ref g n) with
+          | found t' => rw [hft] at hd; simp at hd
+          | loop => rw [hft] at hd; simp at hd
+          | missing =>
+            obtain ⟨g', n', hm', hl⟩ := findTerminal_missing M _ _ hft ht
+            have := hall _ hm'
+            simp only [NodeOk] at this
+            rw [hl] at this; cases this
 
 end Asn1c.Proofs.Fixer
